@@ -99,6 +99,26 @@ func (g *Generator) generateMethodFunction(obj *tlparser.Method) jen.Code {
 	return method
 }
 
+// names a method argument can not take: Go keywords and the identifiers the generated method body uses
+var reservedArgumentNames = map[string]struct{}{
+	"break": {}, "case": {}, "chan": {}, "const": {}, "continue": {}, "default": {}, "defer": {}, "else": {},
+	"fallthrough": {}, "for": {}, "func": {}, "go": {}, "goto": {}, "if": {}, "import": {}, "interface": {},
+	"map": {}, "package": {}, "range": {}, "return": {}, "select": {}, "struct": {}, "switch": {}, "type": {},
+	"var": {},
+
+	"c": {}, "err": {}, "errors": {}, "ok": {}, "reflect": {}, "resp": {}, "responseData": {},
+}
+
+// argumentName is the name of the method argument generated for a schema parameter
+func argumentName(paramName string) string {
+	name := goify(paramName, false)
+	if _, reserved := reservedArgumentNames[name]; reserved {
+		name += "_"
+	}
+
+	return name
+}
+
 func (g *Generator) generateArgumentsForMethod(obj *tlparser.Method) []jen.Code {
 	if len(obj.Parameters) == 0 {
 		return []jen.Code{}
@@ -110,7 +130,7 @@ func (g *Generator) generateArgumentsForMethod(obj *tlparser.Method) []jen.Code 
 	items := make([]jen.Code, 0)
 
 	for i, p := range obj.Parameters {
-		item := jen.Id(goify(p.Name, false))
+		item := jen.Id(argumentName(p.Name))
 		if i == len(obj.Parameters)-1 || p.Type != obj.Parameters[i+1].Type || p.IsVector != obj.Parameters[i+1].IsVector {
 			if p.Type == "bitflags" {
 				continue // ну а зачем?
@@ -139,7 +159,7 @@ func (g *Generator) generateMethodArgumentForMakingRequest(obj *tlparser.Method)
 			continue // ну а зачем?
 		}
 
-		dict[jen.Id(goify(p.Name, true))] = jen.Id(goify(p.Name, false))
+		dict[jen.Id(goify(p.Name, true))] = jen.Id(argumentName(p.Name))
 	}
 
 	return jen.Op("&").Id(goify(obj.Name, true) + "Params").Values(dict)
